@@ -342,8 +342,13 @@ func (c *cache) derefNodePtr(
 			// If this is an internal node, check if the leaf node has been evicted.
 			// In this case treat it as if we need to re-fetch the node.
 			if n.LeafNode != nil && n.LeafNode.Node == nil {
-				c.removeNode(ptr)
-				refetch = true
+				if ptr.Clean {
+					c.removeNode(ptr)
+					refetch = true
+				} else if _, err := c.derefNodePtr(ctx, n.LeafNode, fetcher); err != nil {
+					// A dirty node cannot be re-fetched, so only its evicted leaf node was.
+					return nil, err
+				}
 			}
 		}
 
